@@ -41,5 +41,9 @@ def check(ctx):
             ok, msg = judge(E, M)
             if not ok:
                 key = f"C15/oracle/{name}{'' if target is None else '-subblocks'}/{kind.split('[')[0]}"
+                if msg.startswith("NEAR-UNIT") and name == "large" and target is not None:
+                    # right number of columns, span off by < 1e-2: a principal sub-block has an eigenvalue within np.isclose's
+                    # default rtol=1e-5 of one, which eigh_projector accepts as a unit eigenvalue (known finding)
+                    key = "C15/large-subblocks/isclose-rtol"
                 ctx.fail("oracle", key, f"{name} (sub-block size {target}, threshold {thr}) on matrix {kind}: {msg}",
                          replay={"matrix_kind": kind, "matrix": M.tolist(), "solver": name, "subblock": target, "threshold": thr}, has_input=True)
